@@ -206,8 +206,40 @@ zone_prefix_of_earlier(const char *z)
 	return 0;
 }
 
-enum { PH_COMPILE, PH_OPEN, PH_FIND, PH_CLOSE };
-static const char *const ph_name[] = {"tzmap-cc", "tzm_open", "tzm_find", "tzm_close"};
+enum { PH_COMPILE, PH_OPEN, PH_FIND, PH_CLOSE, PH_SHOW, PH_CHECK };
+static const char *const ph_name[] = {"tzmap-cc", "tzm_open", "tzm_find", "tzm_close", "tzmap-show", "tzmap-check"};
+
+/* `tzmap show -f IMG' (dump of all records) and `tzmap check IMG' walk the records themselves;
+ * run them with stdout/stderr on /dev/null; returns 1 if the run did not return */
+static int
+walk_tool(int check, const char *img)
+{
+	char *av_show[] = {"tzmap", "show", "-f", (char*)img, NULL};
+	char *av_check[] = {"tzmap", "check", (char*)img, NULL};
+	static int nullfd = -1;
+	int so, se, rc;
+
+	if (nullfd < 0) {
+		nullfd = open("/dev/null", O_WRONLY);
+	}
+	fflush(stdout);
+	fflush(stderr);
+	so = dup(1);
+	se = dup(2);
+	dup2(nullfd, 1);
+	dup2(nullfd, 2);
+	EX_GUARD_BEGIN(rc);
+	optind = 0;
+	(void)(check ? tzmap_main(3, av_check) : tzmap_main(4, av_show));
+	EX_GUARD_END;
+	fflush(stdout);
+	fflush(stderr);
+	dup2(so, 1);
+	dup2(se, 2);
+	close(so);
+	close(se);
+	return rc;
+}
 
 /* ---- case 0 of a source: compile ---- */
 static void
@@ -430,6 +462,24 @@ variant_case(long v)
 	c19->phase = PH_CLOSE;
 	tzm_close(g_m);
 	g_m = NULL;
+	/* the tool's own walks over the records of the same image */
+	for (int t = 0; t < 2; t++) {
+		C19_CTR(c_walk, "tzmap_show_and_check_runs");
+		C19_CTR(c_whang, "show_check_on_corrupted_maps_that_do_not_return(counted, not reported)");
+		C19_INC(c_eval);
+		C19_INC(c_walk);
+		c19->phase = t ? PH_CHECK : PH_SHOW;
+		if (walk_tool(t, imgpath)) {
+			if (v == 0) {
+				snprintf(key, sizeof(key), "tzmap %s does-not-return on a well-formed map nkeys=%d", t ? "check" : "show", src_nk);
+				c19_viol(key, src_nk, cas, "map of [%s]: tzmap %s does not return", line, t ? "check" : "show -f");
+			} else {
+				C19_INC(c_whang);
+			}
+		} else if (g_verbose) {
+			printf("  ok tzmap %s: no report\n", t ? "check" : "show -f");
+		}
+	}
 }
 
 static void
@@ -514,6 +564,8 @@ main(int argc, char *argv[])
 	c19_ctr_id("lookups_in_corrupted_maps_that_do_not_return(counted, not reported)");
 	c19_ctr_id("present_key_lookups");
 	c19_ctr_id("absent_key_lookups");
+	c19_ctr_id("tzmap_show_and_check_runs");
+	c19_ctr_id("show_check_on_corrupted_maps_that_do_not_return(counted, not reported)");
 	c19_ctr_id("hangs_confirmed_with_long_limit");
 	c19_ctr_id("lookups_in_wellformed_maps_that_do_not_return");
 	c19_ctr_id("lookups_not_repeated_on_corrupted_images(do not return on the well-formed image)");
@@ -605,7 +657,8 @@ main(int argc, char *argv[])
 	ex_meta("rule", "zone maps: every sorted set of <= %d keys out of {A AA AAAAA AAAAAAAA AAAAAAAAAAAA AAAAAAAAB AAB AB B BA XETR} x zones from {X XY Y/Z Europe/Berlin} in every assignment, compiled by the "
 		"repository's own compiler (lib/tzmap.c cmd_cc through its main(), in a forked child); in the compiled image %d lookups (all 7 keys, \"\", prefixes, extensions, "
 		"outsiders): present key -> exactly its zone string, absent key -> NULL; for sources of <= %d keys additionally the image truncated at every length and its off field "
-		"set to {0,1,n-1,n+1,255,256,65536,2^31-1,2^32-1}: tzm_open + all lookups with no AddressSanitizer report and no fatal signal (image = exact-size heap block). "
+		"set to {0,1,n-1,n+1,255,256,65536,2^31-1,2^32-1}: tzm_open + all lookups, then `tzmap show -f IMAGE' (dump) and `tzmap check IMAGE' through the tool's main(), with no AddressSanitizer report and no fatal signal "
+		"(image = exact-size heap block). "
 		"A lookup that does not return in a well-formed compiled map is a violation (the key is neither found nor reported absent); in a corrupted map it is counted only "
 		"(it neither leaves the image nor crashes) and ends that image's lookups. non-trivial = lookups of absent keys that are prefixes/extensions of present ones, and of present keys "
 		"whose zone name is a proper prefix of a zone name compiled earlier", kfun, NLOOK, kflt);
